@@ -30,14 +30,14 @@ inductive Outcome where
 deriving DecidableEq, Repr, Inhabited
 
 inductive Ev where
-  | cb (c ep : Nat) (kind : Kind) (meth : String) (nonce : Int) (ctype : Int) (tagged : Bool)
+  | cb (c ep : Nat) (kind : Kind) (meth : String) (nonce : Int) (ctype : Int) (tagged : Int)   -- tagged: 0 = no tags, else a checksum of the tag set
   | ce (c : Nat) (out : Outcome) (res : Int)
-  | iv (ep h : Nat) (meth : String) (nonce : Int) (tagged : Bool)
+  | iv (ep h : Nat) (meth : String) (nonce : Int) (tagged : Int)
   | he (ep h : Nat) (res : Int) (err ctxErr : Bool)
   | cx (c : Nat)
   | wr (ep : Nat) (f : FrameInfo)
   | sn (ep : Nat) (seq : Int)
-  | recd (ep : Nat) (tag : String) (size : Nat)
+  | recd (ep : Nat) (tag : String) (size : Nat) (who : String)   -- who: the goroutine that finished the record
   | clb (ep : Nat) (who : String)
   | cle (ep : Nat) (who : String)
   | cut (ep : Nat)
@@ -54,6 +54,9 @@ inductive Ev where
   | wrp (ep n total : Nat)   -- the wire accepted only n of the total bytes of one Write
   | badarg (c : Nat)   -- the argument of this caller's RPC cannot be encoded
   | regb (ep : Nat) | rege (ep : Nat)   -- a protocol registered while the transport runs
+  | wrf (ep : Nat) (f : FrameInfo)   -- a Write that failed although the connection stays up: nothing reached the wire
+  | lateo (c : Nat)   -- the result value of caller c changed when a reply was injected after ALL callers had returned
+  | lr (ep : Nat)   -- the receive loop of `ep` reads the pending table (the look-up itself)
   | harness (msg : String)
 deriving Repr, Inhabited
 
@@ -126,9 +129,9 @@ def natOr (s : String) (d : Nat) : Nat := s.toNat?.getD d
 
 def parseEv (toks : List String) : Ev :=
   match toks with
-  | ["cb", c, ep, k, m, n, ct, tg] => .cb (natOr c 0) (natOr ep 0) (parseKind k) m (intOr n (-1)) (intOr ct 0) (tg = "1")
+  | ["cb", c, ep, k, m, n, ct, tg] => .cb (natOr c 0) (natOr ep 0) (parseKind k) m (intOr n (-1)) (intOr ct 0) (intOr tg 0)
   | ["ce", c, o, r] => .ce (natOr c 0) (parseOutcome o) (intOr r (-1))
-  | ["iv", ep, h, m, n, tg] => .iv (natOr ep 0) (natOr h 0) m (intOr n (-1)) (tg = "1")
+  | ["iv", ep, h, m, n, tg] => .iv (natOr ep 0) (natOr h 0) m (intOr n (-1)) (intOr tg 0)
   | ["he", ep, h, r, e, ce] => .he (natOr ep 0) (natOr h 0) (intOr r (-1)) (e = "1") (ce = "1")
   | ["cx", c] => .cx (natOr c 0)
   | ["wr", ep, hex] => .wr (natOr ep 0) (frameInfo ((unhx hex).getD []))
@@ -136,7 +139,13 @@ def parseEv (toks : List String) : Ev :=
     let f := frameInfo ((unhx hex).getD [])
     .wr (natOr ep 0) (if f.nonce = -1 then { f with nonce := intOr n (-1) } else f)
   | ["sn", ep, s] => .sn (natOr ep 0) (intOr s 0)
-  | ["rec", ep, tag, size] => .recd (natOr ep 0) (String.fromUTF8! ⟨((unhx tag).getD []).toArray⟩) (natOr size 0)
+  | ["rec", ep, tag, size] => .recd (natOr ep 0) (String.fromUTF8! ⟨((unhx tag).getD []).toArray⟩) (natOr size 0) "-"
+  | ["rec", ep, tag, size, who] => .recd (natOr ep 0) (String.fromUTF8! ⟨((unhx tag).getD []).toArray⟩) (natOr size 0) who
+  | ["wrf", ep, hex, n] =>
+    let f := frameInfo ((unhx hex).getD [])
+    .wrf (natOr ep 0) (if f.nonce = -1 then { f with nonce := intOr n (-1) } else f)
+  | ["lateo", c] => .lateo (natOr c 0)
+  | ["lr", ep] => .lr (natOr ep 0)
   | ["clb", ep, who] => .clb (natOr ep 0) who
   | ["cle", ep, who] => .cle (natOr ep 0) who
   | ["cut", ep] => .cut (natOr ep 0)
